@@ -28,6 +28,12 @@ def run_case(case, eng, res):
             rows = [rows[case["row"]]]
 
     def body(path):
+        if case.get("twice"):
+            first = A.run_op(path, case, zone_rows=rows, tag="first")
+            path.notes["timeenv"].now()
+            run = A.run_op(path, case, zone_rows=rows, api=first.api, dev=first.dev)
+            run.extra["first"] = first
+            return run
         return A.run_op(path, case, zone_rows=rows)
 
     npaths = 0
@@ -86,9 +92,14 @@ def run_case(case, eng, res):
                 continue
             m = path.refute(bterm(bad))
             if m is not None:
-                res["violations"].append({"what": "C02 %s: %s" % (op, lbl), "case": case,
-                                          "replay": A.replay_spec(run, m, "C02", zone=_zone(path, m, rows))})
+                rp = A.replay_spec(run, m, "C02", zone=_zone(path, m, rows))
+                if case.get("twice"):
+                    f0 = A.replay_spec(run.extra["first"], m, None, zone=_zone(path, m, rows))
+                    rp["before_ops"] = [{k: f0[k] for k in ("op", "args", "replies", "clock")}]
+                res["violations"].append({"what": "C02 %s: %s" % (op, lbl), "case": case, "replay": rp})
         m = path.witness()
+        if case.get("twice"):
+            continue
         res["witnesses"].append({
             "replay": A.replay_spec(run, m, None, zone=_zone(path, m, rows)),
             "expected": {"frames": [C.ev_seq(m, f).hex() for f in run.frames],
@@ -122,6 +133,7 @@ def main(tier):
             cases += [{"op": op, "zone": z} for z in zs]
             cases += [{"op": op, "zone": "UTC", "free_start": n} for n in range(0, 6 if tier == "quick" else 9)]
             cases += [{"op": op, "zone": "UTC", "days_seq": n} for n in (1, 2, 3)]
+            cases += [{"op": op, "zone": z, "twice": True} for z in ("UTC", "Asia/Jerusalem")]
         else:
             cases += A.op_cases(op, tier)
     results = H.run_cases("harness.C02", "run_case", cases, timeout_ms=60000 if tier == "quick" else 600000)
